@@ -128,9 +128,12 @@ func build(place string, k, kv *Kind, stmt func(target string) string, nparams i
 	if useG && nparams == 2 {
 		helpers += "g := func() " + kv.Name + ` { lg += "g"; return v }; `
 	}
+	// d nested function literals WITHOUT locals of their own: each adds exactly one Env between the statement and the
+	// variable (a function literal that declares locals gets two: one for its parameters, one for its body), so the
+	// statement is compiled with upn = d (+ the frames of the enclosing function, see below)
 	wrap := func(d int, s string) string {
 		for i := d; i >= 1; i-- {
-			s = fmt.Sprintf("func() { var d%d %s = a; _ = d%d; %s }()", i, K, i, s)
+			s = "func() { " + s + " }()"
 		}
 		return s
 	}
@@ -169,7 +172,13 @@ func build(place string, k, kv *Kind, stmt func(target string) string, nparams i
 			f.Src = "func(" + sig + ") string { " + set + st + "; return show(" + res + `, "") }`
 			return f
 		}
-		f.Src = body(set, wrap(d-1, stmt(t1)), res)
+		if !useG {
+			// no locals in the outer function: it has ONE Env (parameters), so a global is upn = d frames up
+			// (d = 1, 2: Outer / Outer.Outer; d >= 3: upn == c.Depth-1, the FileEnv closures)
+			f.Src = "func(" + sig + ") string { " + set + wrap(d-1, stmt(t1)) + "; return show(" + res + `, "") }`
+		} else {
+			f.Src = body(set, wrap(d-1, stmt(t1)), res)
+		}
 	case place == "ptr":
 		f.Src = body(locals+"p := &x; ", stmt("*p"), "x0, x, x1")
 	case place == "ptrf":
